@@ -3,9 +3,11 @@
 package stanza
 
 import (
+	"encoding/json"
 	"encoding/xml"
 	"fmt"
 	"io"
+	"os"
 	"reflect"
 	"strings"
 	"testing"
@@ -90,6 +92,12 @@ func c02alphabet(ns string) []c02elem {
 	}
 	add("unknown-namespace", "plain", "<x xmlns='urn:totally:unknown'><message xmlns='"+ns+"' id='hidden'/></x>", "", "", "", "")
 	add("known-ns-unknown-name", "plain", "<blob id='b1'><body>x</body></blob>", "", "", "", "")
+	for _, st := range []string{"message", "presence", "iq"} {
+		add("no-namespace/"+st, "plain", "<"+st+" xmlns='' id='nn1' from='a@b'><body>x</body></"+st+">", "", "", "", "")
+	}
+	add("other-namespace/message", "plain", "<message xmlns='jabber:server' id='os1'><body>x</body></message>", "", "", "", "")
+	add("sm-unknown-name", "plain", "<blob xmlns='urn:xmpp:sm:3'/>", "", "", "", "")
+	add("stream-unknown-name", "plain", "<stream:blob/>", "", "", "", "")
 	add("sasl-unknown-name", "plain", "<challenge xmlns='urn:ietf:params:xml:ns:xmpp-sasl'>AAAA</challenge>", "", "", "", "")
 	return a
 }
@@ -384,6 +392,14 @@ func c02checkTotal(c *hx.Ctx, ns string, els []c02elem, thorough bool) {
 }
 
 func TestVerifC02(t *testing.T) {
+	if v := os.Getenv("VERIF_C02_DEEP"); v != "" {
+		var dc c02deepCase
+		if err := json.Unmarshal([]byte(v), &dc); err != nil {
+			t.Fatal(err)
+		}
+		c02deepChild(dc)
+		return
+	}
 	var scs []hx.Scenario
 	quick := !hx.Thorough()
 	for _, ns := range []string{NSClient, NSComponent} {
@@ -428,6 +444,8 @@ func TestVerifC02(t *testing.T) {
 			}})
 		}
 	}
+	scs = append(scs, c02deepScenarios()...)
+	scs = append(scs, c02treeScenarios()...)
 	if hx.Main("C02", scs) == 2 {
 		t.Fatal("internal error")
 	}
